@@ -30,8 +30,6 @@ pub open spec fn c_tc() -> int { CodecCorrection::TokenCount as int }
 pub open spec fn c_pad() -> int { CodecCorrection::NonZeroPadding as int }
 
 pub open spec fn tok_len(t: PreflateToken) -> u32 { match t { PreflateToken::Literal(l) => 1u32, PreflateToken::Reference(r) => ref_len(r) } }
-pub open spec fn ediff(p: u32, a: u32) -> u32 { if p >= a { ((p - a) * 2) as u32 } else { ((a - p) * 2 + 1) as u32 } }
-pub open spec fn ddiff(p: u32, e: u32) -> int { if e % 2 == 0 { p - e / 2 } else { p + e / 2 } }
 
 pub open spec fn sp_repredict(hv: int, e: Env, pos: int) -> Option<PreflateTokenReference> {
     if pos == 0 || e.text.len() - pos < 3 { None } else {
